@@ -276,8 +276,20 @@ class Model:
     def field_written_outside_init(self, cls, field):
         """some statement of the package other than <cls>.__init__ (and helpers only it calls) assigns, deletes or mutates in place an attribute named `field`"""
         MUT = {'append', 'extend', 'insert', 'pop', 'remove', 'clear', 'update', 'setdefault', 'add', 'discard', 'popitem', 'sort', 'reverse', 'appendleft', 'popleft'}
+        # construction = the constructors of the class family plus the private helpers that only they (transitively) call
+        ctor = {fn.qn for fn in self.all_funcs() if fn.name == '__init__' and fn.cls is not None and cls in fn.cls.mro() + [d for d in self.subclasses(fn.cls)]}
+        changed = True
+        while changed:
+            changed = False
+            for fn in self.funcs.values():
+                if fn.qn in ctor or not fn.name.startswith('_') or fn.name.startswith('__'):
+                    continue
+                sites = [c for c, n in self.call_sites(fn.qn) if isinstance(n, ast.Call)]
+                if sites and all(c.qn in ctor for c in sites):
+                    ctor.add(fn.qn)
+                    changed = True
         for fn in self.all_funcs():
-            if fn.name == '__init__' and fn.cls is not None and cls in fn.cls.mro() + [d for d in self.subclasses(fn.cls)]:
+            if fn.qn in ctor or (getattr(fn, 'parent', None) is not None and fn.parent.qn in ctor):
                 continue
             for n in ast.walk(fn.node):
                 tg = []
